@@ -354,8 +354,9 @@ def with_block(P, name, idx, value):
     return Q
 
 
-def gaussian_ref(P, data, name, idx, lam):
+def gaussian_ref(P, data, name, idx, lam, mu_scratch=None):
     """canonical parameters of the full conditional of block P[name][idx] (numerical design)"""
+    mu_scratch = mu_scratch or globals()["mu_scratch"]
     y, cl, d1, d2 = data
     cur = np.atleast_1d(P[name][idx])
     K = len(cur)
@@ -442,10 +443,14 @@ class ForcedFailure(Exception):
     pass
 
 
-def run_sweep(model, proxy, fail_rng, fail_p, data):
+def run_sweep(model, proxy, fail_rng, fail_p, data, stages=None, module=None, snap=None):
     """one real `model.step()` with every stage wrapped; returns the recorded trace"""
-    import batchie.models.sparse_combo as sc
     import batchie.fast_mvn as fm
+    if module is None:
+        import batchie.models.sparse_combo as module
+    sc = module
+    stages = stages or STAGES
+    snap = snap or globals()["snap"]
     w = model.wrapped_model
     trace = {"stages": [], "mus": [], "snaps": []}
     cur = {"stage": None}
@@ -492,7 +497,7 @@ def run_sweep(model, proxy, fail_rng, fail_p, data):
 
     saved = sc.sample_mvn_from_precision
     sc.sample_mvn_from_precision = mvn_wrapper
-    for nme in STAGES:
+    for nme in stages:
         setattr(w, nme, wrap(nme))
     try:
         with warnings.catch_warnings():
@@ -503,7 +508,7 @@ def run_sweep(model, proxy, fail_rng, fail_p, data):
                 trace["raised"] = "%s: %s (in %s)" % (type(e).__name__, str(e)[:200], cur["stage"])
     finally:
         sc.sample_mvn_from_precision = saved
-        for nme in STAGES:
+        for nme in stages:
             if nme in w.__dict__:
                 delattr(w, nme)
     trace["records"] = proxy.records
@@ -730,8 +735,9 @@ def trace_value_after(trace, base, ix, rec):
     return st[base][ix].tolist()
 
 
-def gamma_ref(base, ix, P, prev, data, nC, nT, D, a0, b0):
+def gamma_ref(base, ix, P, prev, data, nC, nT, D, a0, b0, mu_scratch=None):
     """(conjugate shape, conjugate rate, magnitude of the rate's summands) from the documented model"""
+    mu_scratch = mu_scratch or globals()["mu_scratch"]
     y, cl, d1, d2 = data
     N = len(y)
     if base == "tau0":
@@ -811,9 +817,11 @@ def parse_floats(tok):
     return [] if tok == "-" else [from_bits(t) for t in tok.split(",")]
 
 
-def compare_with_model(res, case, out, log, trace, after, pred, N, sweep_no):
+def compare_with_model(res, case, out, log, trace, after, pred, N, sweep_no, stages=None, state_floats=None, where="C08:sweep"):
     """model answer vs implementation record of one sweep"""
-    where = "C08:sweep"
+    inter = stages is not None
+    STAGES = stages or globals()["STAGES"]
+    state_floats = state_floats or globals()["state_floats"]
     parts = out.split(" ")
     if len(parts) != 5:
         res.disagree(where, case, "sweep %d" % sweep_no, out[:300])
@@ -845,7 +853,8 @@ def compare_with_model(res, case, out, log, trace, after, pred, N, sweep_no):
     sscale = np.abs(np.asarray(istate, dtype=np.float64))
     if N:
         sscale[-N:] = trace["muabs"][STAGES[-1]]
-        sscale[0] = log[0][3][0] + 1.0      # alpha = float32 mean of the observations: noise relative to mean|y|
+        if not inter:
+            sscale[0] = log[0][3][0] + 1.0      # alpha = float32 mean of the observations: noise relative to mean|y|
     if len(mstate) != len(istate) or not close(mstate, istate, sscale):
         res.disagree(where + ":state", dict(case, sweep=sweep_no), istate[:16], mstate[:16])
         return False
@@ -1076,6 +1085,318 @@ def describe(spec, res):
         res.nontrivial.add((spec["case_seed"],))
 
 
+# ------------------------------------------------------------------------------------------------
+# extension: the interaction-only sampler (LegacySparseDrugComboInteractionImpl), model Model/GibbsInter.lean
+# ------------------------------------------------------------------------------------------------
+
+ISTAGES = ["_reconstruct_Mu", "_W_step", "_V2_step", "_prec_obs_step", "_prec_V2_step", "_prec_W_step"]
+IPARAMS = ["W", "V2", "tau", "gam", "eta2", "phi2"]
+ISTAGE_OF = {"W": "_W_step", "V2": "_V2_step", "prec": "_prec_obs_step", "phi2aux": "_prec_V2_step", "phi2": "_prec_V2_step",
+             "eta2aux": "_prec_V2_step", "eta2": "_prec_V2_step", "gam": "_prec_W_step"}
+
+
+def isnap(w):
+    s = {k: np.array(getattr(w, k), dtype=np.float64) for k in IPARAMS}
+    s["prec"] = float(w.prec)
+    s["tau0"] = float(w.tau0)
+    s["Mu"] = np.array(w.Mu, dtype=np.float64)
+    return s
+
+
+def imu(P, cl, d1, d2, absolute=False):
+    """<W[c], V2[d1] * V2[d2]>  (combination rows only)"""
+    if len(cl) == 0:
+        return np.zeros(0)
+    f = np.abs if absolute else (lambda x: x)
+    return (f(P["W"])[cl] * f(P["V2"])[d1] * f(P["V2"])[d2]).sum(1)
+
+
+def igen_spec(seed, max_sweeps, selfpair=False):
+    rng = random.Random(seed)
+    nC = rng.choice([1, 2, 2, 3, 4])
+    nT = rng.choice([2, 3, 3, 4, 5, 6])
+    D = rng.choice([1, 2, 2, 3, 4, 5, 6])
+    N = rng.choice([0, 1, 2, 3, 5, 8, 8, 12, 12, 16, 20])
+    used_c = rng.sample(range(nC), rng.randint(1, nC))
+    used_t = rng.sample(range(nT), rng.randint(2, nT))
+    rows = []
+    for _ in range(N):
+        a, b = rng.sample(used_t, 2)
+        rows.append([rng.choice(used_c), a, b])
+    if selfpair and rows:
+        t = rng.choice(used_t)
+        rows[rng.randrange(len(rows))] = [rng.choice(used_c), t, t]
+    # rows of the screen that the sampler must NOT train on (single-agent / control rows, interleaved)
+    extra = []
+    for _ in range(rng.choice([0, 0, 2, 4])):
+        k = rng.random()
+        t = rng.choice(used_t)
+        extra.append([rng.randint(0, len(rows)), [rng.choice(used_c)] + ([t, -1] if k < 0.45 else [-1, t] if k < 0.9 else [-1, -1])])
+    obs = [round(0.02 + 0.96 * rng.random(), 6) for _ in range(N)]
+    return {"stream": "inter-selfpair" if selfpair else "inter", "case_seed": seed, "nC": nC, "nT": nT, "D": D, "rows": rows, "obs": obs,
+            "extra": extra, "perturb": rng.random() < 0.5, "wild": rng.random() < 0.3, "fail_p": rng.choice([0.0, 0.0, 0.05, 0.2]),
+            "max_sweeps": max_sweeps, "sweeps": rng.randint(1, max_sweeps)}
+
+
+def ibuild(spec):
+    from batchie.data import ExperimentSpace
+    from batchie.models.sparse_combo_interaction import SparseDrugComboInteraction
+    tmap, smap = maps_of(spec)
+    model = SparseDrugComboInteraction(experiment_space=ExperimentSpace(treatment_mapping=tmap, sample_mapping=smap),
+                                       n_embedding_dimensions=spec["D"])
+    rows, obs = [list(r) for r in spec["rows"]], list(spec["obs"])
+    allrows, allobs = list(rows), list(obs)
+    for pos, r in sorted(spec.get("extra", []), key=lambda e: -e[0]):
+        allrows.insert(pos, r)
+        allobs.insert(pos, 0.5)
+    screen = build_screen(spec, allrows, allobs)
+    train_screen = build_screen(spec, rows, obs)
+    if screen is not None:
+        model.add_observations(screen)
+    return model, train_screen
+
+
+def iperturb(w, rng, N):
+    g = np.random.default_rng(rng.randrange(2 ** 32))
+    sc_ = rng.choice([0.3, 0.7, 1.0, 1.5])
+    for k in ["W", "V2"]:
+        a = getattr(w, k)
+        a[...] = (g.standard_normal(a.shape) * sc_).astype(np.float32)
+    lo = 1.0 / np.sqrt(1.0 + N)
+    lu = lambda shape=None: f32(10.0 ** g.uniform(np.log10(lo), 3.0, size=shape))
+    w.prec = float(lu())
+    w.tau = lu(w.tau.shape).astype(np.float32)
+    w.gam = f32(10.0 ** g.uniform(-1, 1, size=w.gam.shape)).astype(np.float32)
+    w.eta2 = lu(w.eta2.shape)
+    w.phi2 = f32(10.0 ** g.uniform(0.0, 3.0, size=w.phi2.shape))
+
+
+def isite_list(nC, nT, D):
+    s = [("W.%d" % c, "vec") for c in range(nC)] + [("V2.%d" % m, "vec") for m in range(nT)]
+    s += [(x, "gamma") for x in ["prec", "phi2aux", "phi2", "eta2aux", "eta2"]]
+    return s + [("gam.%d" % d, "gamma") for d in range(D)]
+
+
+def icheck_sweep(spec, trace, data, fail, res):
+    """implementation-only oracles of one sweep of the interaction sampler; returns the canonical log or None"""
+    nC, nT, D = spec["nC"], spec["nT"], spec["D"]
+    y, cl, d1, d2 = data
+    N = len(y)
+    if trace.get("raised"):
+        fail("the interaction sampler's step raised", trace["raised"], "step() completes", "C08I:step-raised")
+        return None
+    blocks = [nm for nm in trace["stages"] if nm != "_reconstruct_Mu"]
+    if blocks != ISTAGES[1:] or trace["stages"][:1] != ISTAGES[:1]:
+        fail("interaction sweep does not visit the blocks once each in the documented order", trace["stages"], ISTAGES, "C08I:order")
+        return None
+    sp_rows = set(n for n in range(N) if d1[n] == d2[n])
+    if N:
+        run_max = np.zeros(N)
+        for si, (name, mu_c, st) in enumerate(zip(trace["stages"], trace["mus"], trace["snaps"])):
+            # Mu is a float32 array updated incrementally: its rounding noise is relative to the largest magnitude the entry had
+            # earlier in the sweep, not to its current (possibly much smaller) value
+            run_max = np.maximum(run_max, imu(st, cl, d1, d2, absolute=True))
+            ref, sc_ = imu(st, cl, d1, d2), run_max.copy()
+            if mu_c.shape != ref.shape or not close(mu_c, ref, sc_, tol=1e-4):
+                stale = far_rows(mu_c, ref, sc_, 1e-4) if mu_c.shape == ref.shape else None
+                if stale and set(stale) <= sp_rows and si >= 2:
+                    # same mechanism as the known finding of the sparse combination sampler, on THIS sampler: observation only
+                    res.count("observation.inter.self-pair-stale-cache")
+                    return None
+                fail("interaction sampler: fitted-value cache Mu differs from a from-scratch recomputation after " + name,
+                     {"stale_rows": stale, "Mu": mu_c.tolist()[:12]}, {"recomputed": ref.tolist()[:12]}, "C08I:cache:" + name)
+                return None
+    if sp_rows:
+        return None
+    if trace["stages"] != ISTAGES:
+        keep = [0] + [i for i, nm in enumerate(trace["stages"]) if nm != "_reconstruct_Mu"]
+        for key in ("stages", "mus", "snaps"):
+            trace[key] = [trace[key][i] for i in keep]
+    sites, recs = isite_list(nC, nT, D), trace["records"]
+    if len(recs) != len(sites):
+        fail("number of random draws in an interaction sweep", len(recs), len(sites), "C08I:order")
+        return None
+    occ1 = np.array([int(np.sum(d1 == m)) for m in range(nT)])
+    occ2 = np.array([int(np.sum(d2 == m)) for m in range(nT)])
+    occC = np.array([int(np.sum(cl == c)) for c in range(nC)])
+    log = []
+    for ri, ((site, skind), rec) in enumerate(zip(sites, recs)):
+        base, _, ix = site.partition(".")
+        ix = int(ix) if ix else None
+        P = rec["state"]
+        if rec["stage"] != ISTAGE_OF[base]:
+            fail("interaction sampler: draw made in the wrong stage", {"site": site, "stage": rec["stage"]}, ISTAGE_OF[base], "C08I:order")
+            return None
+        sig = "C08I:args:" + base
+        what = "interaction sampler: draw arguments of %s are not the parameters of its full conditional" % base
+        if skind == "vec":
+            lam = P["tau"] if base == "W" else P["phi2"][ix] * P["eta2"]
+            Q, b, bscale, qs = gaussian_ref(P, data, base, ix, lam, mu_scratch=imu)
+            has = (occC[ix] > 0) if base == "W" else (occ1[ix] + occ2[ix] > 0)
+            if not has:
+                if not (rec["kind"] == "normal" and rec["scale"].shape == (D,) and rec["loc"].shape == () and rec["size"] is None):
+                    fail("draw kind/shape at " + site, rec["kind"], "normal with vector sd (unit without data)", "C08I:order")
+                    return None
+                args = [float(rec["loc"])] + rec["scale"].tolist()
+                ref = [0.0] + (1.0 / np.sqrt(lam)).tolist()
+                if not close(args, ref, ref):
+                    fail(what, {"site": site, "mean_sd": args}, {"mean_sd": ref}, sig)
+                log.append((site, "normalVec", args, ref, rec["value"].tolist()))
+            else:
+                if rec["kind"] != "mvn" or rec["Q"].shape != (D, D) or rec["b"].shape != (D,):
+                    fail("draw kind/shape at " + site, rec["kind"], "sample_mvn_from_precision(Q[D,D], mu_part[D])", "C08I:order")
+                    return None
+                if not rec["rng_is_proxy"]:
+                    fail("sample_mvn_from_precision is not given the model's generator", "rng is not the generator", "rng=self.rng", "C08I:rng")
+                if not close(rec["Q"], Q, qs) or not close(rec["b"], b, bscale):
+                    fail(what, {"site": site, "Q": rec["Q"].tolist(), "mu_part": rec["b"].tolist()}, {"Q": Q.tolist(), "mu_part": b.tolist()}, sig)
+                value = None if rec["failed"] else trace["snaps"][ISTAGES.index(ISTAGE_OF[base])][base][ix].tolist()
+                log.append((site, "mvn", rec["Q"].ravel().tolist() + rec["b"].tolist(), [qs] * (D * D) + bscale.tolist(), value))
+        else:
+            if rec["kind"] != "gamma" or rec["size"] is not None:
+                fail("draw kind/shape at " + site, rec["kind"], "gamma", "C08I:order")
+                return None
+            prev = recs[ri - 1]["value"] if base in ("phi2", "eta2") else None
+            shape_ref, rate_ref, rscale, stab = gamma_ref(base, ix, P, prev, data, nC, nT, D, 1.1, 1.1, mu_scratch=imu)
+            if rec["shape"].shape != () or rec["scale"].shape != np.shape(rate_ref):
+                fail("draw kind/shape at " + site, [list(rec["shape"].shape), list(rec["scale"].shape)], [[], list(np.shape(rate_ref))], "C08I:order")
+                return None
+            scale_ref = 1.0 / (np.asarray(rate_ref) + stab)
+            args = [float(rec["shape"])] + np.asarray(rec["scale"]).ravel().tolist()
+            ref = [float(shape_ref)] + np.asarray(scale_ref).ravel().tolist()
+            rel = [0.0] + (np.asarray(scale_ref) ** 2 * np.asarray(rscale)).ravel().tolist()
+            if not close(args, ref, rel):
+                fail("interaction sampler: gamma arguments of %s are not (conjugate shape, 1/(conjugate rate + 1e-3))" % base,
+                     {"site": site, "shape": args[0], "scale": args[1:7]}, {"shape": ref[0], "scale": ref[1:7]}, sig)
+            log.append((site, "gamma", args, rel, np.asarray(rec["value"]).ravel().tolist()))
+    lowN, lowT = 1.0 / np.sqrt(1.0 + N), 1.0 / np.sqrt(1.0 + occ1 + occ2)
+    for name, st in zip(trace["stages"], trace["snaps"]):
+        chk = {"_prec_obs_step": [("prec", st["prec"], lowN)] if N else [], "_prec_V2_step": [("eta2", st["eta2"], lowN), ("phi2", st["phi2"], lowT[:, None])],
+               "_prec_W_step": [("tau", st["tau"], lowN)]}.get(name, [])
+        for nm, v, lo in chk:
+            v = np.asarray(v)
+            if not (np.all(v >= lo * (1 - 1e-6)) and np.all(v <= 1e6 * (1 + 1e-6))):
+                fail("interaction sampler: precision %s outside its documented bounds after %s" % (nm, name), v.ravel().tolist()[:8],
+                     {"low": np.asarray(lo).ravel().tolist()[:8], "high": 1e6}, "C08I:bounds:" + nm)
+    return log
+
+
+def istate_floats(st, N):
+    out = [st["prec"], st["tau0"]]
+    for k in ["W", "V2", "tau", "gam", "eta2", "phi2"]:
+        out += np.asarray(st[k]).ravel().tolist()
+    mu = np.asarray(st["Mu"]).ravel().tolist()
+    return out + (mu if len(mu) == N else [0.0] * N)
+
+
+def isweep_line(spec, before, log, data):
+    nC, nT, D = spec["nC"], spec["nT"], spec["D"]
+    y, cl, d1, d2 = data
+    N = len(y)
+    val = {s_: v for (s_, _k, _a, _sc, v) in log}
+
+    def vecs(base, n):
+        rows, fails = [], []
+        for i in range(n):
+            v = val["%s.%d" % (base, i)]
+            fails.append(v is None)
+            rows += [0.0] * D if v is None else list(v)
+        return rows, fails
+    w, fw = vecs("W", nC)
+    v2, f2 = vecs("V2", nT)
+    fl = [1.1, 1.1] + list(y) + istate_floats(before, N) + w + v2 + val["prec"] + val["phi2aux"] + val["phi2"] + val["eta2aux"] + val["eta2"]
+    for d in range(D):
+        fl += val["gam.%d" % d]
+    btok = lambda bs: ",".join("1" if b else "0" for b in bs) if bs else "-"
+    return "c08isweep %d %d %d %d %s %s %s %s %s %s" % (nC, nT, D, N, itok(cl), itok(d1), itok(d2), btok(fw), btok(f2), ftok(fl))
+
+
+def irun_case(spec, res, iqueue):
+    import batchie.models.sparse_combo_interaction as sci
+    from scipy.special import logit
+    case = {k: spec[k] for k in ("stream", "case_seed", "max_sweeps", "nC", "nT", "D", "rows", "sweeps")}
+    rng = random.Random(spec["case_seed"] ^ 0x1A7E)
+    try:
+        model, screen = ibuild(spec)
+    except RuntimeError:
+        raise
+    except Exception as e:      # noqa: BLE001
+        res.fail("interaction sampler: add_observations raised on a valid screen", case, "%s: %s" % (type(e).__name__, str(e)[:200]), "accepted", "C08I:add-observations-raised")
+        return
+    w = model.wrapped_model
+    rows = spec["rows"]
+    N = len(rows)
+    y = np.array(w.y, dtype=np.float64)
+    cl = np.array([r[0] for r in rows], dtype=int)
+    d1 = np.array([r[1] for r in rows], dtype=int)
+    d2 = np.array([r[2] for r in rows], dtype=int)
+    y_ref = logit(np.array(spec["obs"], dtype=np.float64)) if N else np.zeros(0)
+
+    def fail(what, observed, required, signature):
+        res.fail(what, case, observed, required, signature)
+
+    if len(y) != N or list(w.cline) != cl.tolist() or list(w.dd1) != d1.tolist() or list(w.dd2) != d2.tolist():
+        fail("interaction sampler: training tuples are not the observed combination rows of the screen",
+             [list(map(int, w.cline)), list(map(int, w.dd1)), list(map(int, w.dd2))], rows, "C08I:rows")
+        return
+    if N and not close(y, y_ref, np.abs(y_ref) + 1.0):
+        fail("interaction sampler: stored observations are not logit(obs)", y.tolist()[:8], y_ref.tolist()[:8], "C08I:transform")
+    data = (y, cl, d1, d2)
+    proxy = Proxy(rng.randrange(2 ** 32), spec["wild"], None)
+    model.set_rng(proxy)
+    fail_rng = random.Random(rng.randrange(2 ** 32))
+    prev = None
+    for sweep_no in range(spec["sweeps"]):
+        if spec["perturb"] and sweep_no == 0:
+            iperturb(w, rng, N)
+        before = isnap(w)
+        trace = run_sweep(model, proxy, fail_rng, spec["fail_p"], data, stages=ISTAGES, module=sci, snap=isnap)
+        res.evaluations += 1
+        res.count("inter.sweeps")
+        if prev is not None and N:
+            th0, mu0, var0, muabs0 = prev
+            p0 = np.asarray(th0.predict_conditional_mean(screen), dtype=np.float64)
+            if p0.shape != mu0.shape or not close(p0, mu0, muabs0, tol=1e-4) or float(th0.precision) != var0:
+                fail("interaction sampler: a sample exported after sweep k changed when sweep k+1 ran", p0.tolist()[:8], mu0.tolist()[:8], "C08I:export-alias")
+        log = icheck_sweep(spec, trace, data, fail, res)
+        after = isnap(w)
+        pred = None
+        if N and log is not None:
+            th = model.get_model_state()
+            pred = np.asarray(th.predict_conditional_mean(screen), dtype=np.float64)
+            var = np.asarray(th.predict_conditional_variance(screen), dtype=np.float64)
+            muabs = imu(before, cl, d1, d2, absolute=True)       # running maximum over the sweep (incremental float32 cache)
+            for st_ in trace["snaps"]:
+                muabs = np.maximum(muabs, imu(st_, cl, d1, d2, absolute=True))
+            if pred.shape != after["Mu"].shape or not close(pred, after["Mu"], muabs, tol=1e-4):
+                fail("interaction sampler: exported sample does not reproduce the fitted values on the training rows", pred.tolist()[:12], after["Mu"].tolist()[:12], "C08I:export")
+            if var.shape != (N,) or not close(var, np.full(N, 1.0 / after["prec"]), 1.0 / after["prec"], tol=1e-9):
+                fail("interaction sampler: exported variance is not 1/prec", var.tolist()[:4], 1.0 / after["prec"], "C08I:export")
+            prev = (th, np.array(after["Mu"]), float(th.precision), muabs)
+        if log is None:
+            return
+        trace["muabs"], run_max = {}, (np.abs(y) if N else 0)
+        for name, st in zip(trace["stages"], trace["snaps"]):
+            run_max = np.maximum(run_max, imu(st, cl, d1, d2, absolute=True) + (np.abs(y) if N else 0))
+            trace["muabs"][name] = run_max
+        iqueue.append((isweep_line(spec, before, log, data), case, log, trace, after, pred, N, sweep_no))
+    res.traces_validated += 1
+
+
+def inter_stream(ctx, res, iqueue):
+    max_sweeps = ctx.scale(3, 4, 4)
+    rng = ctx.subrng("inter")
+    for t in range(ctx.scale(60, 800, 250)):
+        spec = igen_spec(rng.randrange(2 ** 48), max_sweeps)
+        res.count("inter.cases")
+        res.count("inter.D=%d" % spec["D"])
+        res.count("inter.cases.perturbed", int(spec["perturb"]))
+        res.count("inter.cases.screen_with_non_combination_rows", int(bool(spec["extra"])))
+        irun_case(spec, res, iqueue)
+    for t in range(ctx.scale(3, 20, 8)):
+        irun_case(igen_spec(rng.randrange(2 ** 48), 2, selfpair=True), res, iqueue)
+
+
 def mvn_stream(ctx, res, lines, cbs):
     """sample_mvn_from_precision on its own with a recorded z (float64, well conditioned)"""
     import batchie.fast_mvn as fm
@@ -1153,9 +1474,16 @@ def run(ctx, res):
         spec = gen_spec(rng.randrange(2 ** 48), "selfpair", 2)
         res.count("selfpair.cases")
         run_case(spec, res, queue)
+    iqueue = []
+    inter_stream(ctx, res, iqueue)
     mlines, mcbs = [], []
     mvn_stream(ctx, res, mlines, mcbs)
     if ctx.driver is not None:
+        iouts = ctx.driver.ask([q[0] for q in iqueue]) if iqueue else []
+        for q, out in zip(iqueue, iouts):
+            line, case, log, trace, after, pred, N, sweep_no = q
+            compare_with_model(res, case, out, log, trace, after, pred, N, sweep_no, stages=ISTAGES, state_floats=istate_floats, where="C08I:sweep")
+        res.count("tie.inter_sweep_lines", len(iqueue))
         outs = ctx.driver.ask([q[0] for q in queue] + mlines)
         for q, out in zip(queue, outs[:len(queue)]):
             line, case, log, trace, after, pred, N, sweep_no = q
@@ -1181,6 +1509,14 @@ def replay(ctx, case, res):
         want = t1 + t2
         if not close(got, want, float(np.max(np.abs(t1) + np.abs(t2))), tol=1e-11 * np.linalg.cond(Q)):
             res.fail("sample_mvn_from_precision(Q, mu_part, z) is not U^-1 z + Q^-1 mu_part", case, got.tolist(), want.tolist(), "C08:mvn")
+        return
+    if str(case.get("stream", "")).startswith("inter"):
+        iqueue = []
+        irun_case(igen_spec(case["case_seed"], case.get("max_sweeps", 3), selfpair=case["stream"] == "inter-selfpair"), res, iqueue)
+        if ctx.driver is not None and iqueue:
+            for q, out in zip(iqueue, ctx.driver.ask([q[0] for q in iqueue])):
+                line, c, log, trace, after, pred, N, sweep_no = q
+                compare_with_model(res, c, out, log, trace, after, pred, N, sweep_no, stages=ISTAGES, state_floats=istate_floats, where="C08I:sweep")
         return
     if case.get("fixed") == "selfpair-witness":
         spec = fixed_selfpair_spec()
